@@ -67,7 +67,12 @@ def generate(R, tier):
             st = "wrong-family"
         else:
             st = "valid"
-        yield {"stream": st, "v": v, "raw": bytes(raw).hex()}
+        c = {"stream": st, "v": v, "raw": bytes(raw).hex()}
+        if R.random() < 0.5:
+            # the previous packet of the uptime pair: `ticks` timestamp ticks and `ms` milliseconds before this one
+            c["up"] = [R.choice([0, 1, 4, 5, 6, 7, 10, 13, 100, 1000, 15000, 2 ** 31, 2 ** 32 - 1, R.randrange(2 ** 32)]),
+                       R.choice([0, 1, 24, 25, 26, 130, 500, 5000, 6000, 7000, 7143, 7200, 10000, 600000, 10 ** 9, R.randrange(1, 10 ** 7)])]
+        yield c
         if i % 60 == 0:
             base = bytes(W.build(spec))
             for k in range(len(base)):
@@ -138,8 +143,16 @@ def impl_init():
             if type(e).__name__ == "CaseTimeout":
                 raise
             return {"dissect_failed": type(e).__name__}
+        prev = last
+        if c.get("up"):
+            try:
+                cur = parse_packet(pkt)
+                prev = TCPPacketSignature.from_packet(parse_packet(U.scapy_from_spec({"flags": 2, "opts": "0101" + W.o_ts((cur.tcp.options.timestamp - c["up"][0]) % 2 ** 32, 0)})))
+                prev.received -= c["up"][1]
+            except BaseException:  # noqa
+                prev = last
         out = {"tcp": run(lambda: fingerprint_tcp(pkt, options=opts)), "mtu": run(lambda: fingerprint_mtu(pkt, options=opts)),
-               "uptime": run(lambda: fingerprint_uptime(pkt, last, options=opts))}
+               "uptime": run(lambda: fingerprint_uptime(pkt, prev, options=opts))}
         try:
             k = parse_packet(pkt)
             out["layout_len"] = len(k.tcp.options.layout)
